@@ -81,7 +81,15 @@ func TestVerifC13(t *testing.T) {
 		for len(values) < nv {
 			ntok := []int{1, 2, 3, 5, 8, 20, 60}[rr.intn(7)]
 			v := vgenValue(rr, ntok, kind)
-			ok := v != ""
+			switch rr.intn(6) { // values as users register them: stray white space at the ends
+			case 0:
+				v = v + " "
+			case 1:
+				v = v + "\n"
+			case 2:
+				v = "  " + v
+			}
+			ok := strings.TrimSpace(v) != ""
 			for _, w := range values { // none occurs inside another
 				if strings.Contains(w, v) || strings.Contains(v, w) {
 					ok = false
@@ -91,6 +99,19 @@ func TestVerifC13(t *testing.T) {
 				values = append(values, v)
 			} else if rr.chance(1, 10) {
 				break
+			}
+		}
+		// near-duplicate values (one word differs): neither occurs inside the other, but each is a
+		// high-confidence fuzzy match of the other's verbatim copy
+		if si%3 == 2 && len(values) > 0 {
+			ws := strings.Fields(values[len(values)-1])
+			if len(ws) >= 20 {
+				ws[len(ws)/2] = "qqq"
+				nd := strings.Join(ws, " ")
+				values = append(values, nd)
+				if rr.chance(1, 2) { // let the edited twin get the alphabetically earlier key
+					values[len(values)-1], values[len(values)-2] = values[len(values)-2], values[len(values)-1]
+				}
 			}
 		}
 		addPanic := ""
@@ -130,7 +151,11 @@ func TestVerifC13(t *testing.T) {
 				pre = ""
 			}
 			unknown := strings.TrimSpace(pre + " " + v + " " + post)
+			if k == 2 && strings.TrimSpace(v) != v {
+				unknown = strings.TrimLeft(pre+" "+v, " ") // the copy, stray blanks included, ends the text
+			}
 			var ms Matches
+			o.attempt("C13", fmt.Sprintf("s%d_plant%d", si, k), map[string]interface{}{"call": "MultipleMatch", "unknown_hex": hxs(unknown), "values_hex": vhexAll(values), "threshold": th})
 			pan, msg := catch(func() { ms = c.MultipleMatch(unknown) })
 			normU, normV := c.normalize(unknown), c.normalize(v)
 			what := ""
@@ -148,8 +173,12 @@ func TestVerifC13(t *testing.T) {
 				}
 				// token-aligned occurrences of normV in normU
 				if what == "" && normV != "" {
-					off := strings.Index(" "+normU+" ", " "+normV+" ")
-					if off >= 0 {
+					off := strings.Index(" "+normU+" ", " "+strings.TrimSpace(normV)+" ")
+					if strings.TrimSpace(normV) != normV {
+						// the registered text itself begins/ends with a blank: the copy is where that exact text occurs
+						off = strings.Index(normU, normV)
+					}
+					if off >= 0 && strings.TrimSpace(normV) == normV {
 						found := false
 						for _, m := range ms {
 							if m.Name == fmt.Sprintf("v%d", vi) && m.Confidence == 1.0 && m.Offset == off && m.Extent == len(normV) {
